@@ -3,7 +3,7 @@
    descends, so after `Err(NoSuchVariable)` (which DataExpr::apply and ArmInstr::assemble turn into a deferral
    when `local`) the statement keeps the sub-expressions that were already replaced by their values.  That is
    observable across files (the retry in the includer must not look those names up again), so this variant
-   returns the tree in the error case too.  On success it computes exactly EvalModel.evaluate (CtxProofs.v).
+   returns the tree in the error case too.  It agrees with EvalModel.evaluate (Asm/CtxProofs.v: evaluate_mut_agrees).
    The constant table is `lookup : str -> option lookup_res`; None = panic!("no local scope").
    Assumption (not observable through diagnostic classes): when simplify_raw fails at a node, the node is left
    as it was when simplify_raw was entered (children evaluated, node itself not rewritten).
